@@ -157,6 +157,8 @@ class ItemRun:
         from server import items
         raw = self.raw
         self.types_before = set(theory.thy.get_data("type_sig"))     # Datatype.parse itself adds the type
+        self.consts_before = dict(theory.thy.get_data("term_sig"))
+        self.overloaded_before = set(theory.thy.get_data("overload"))
         item = items.parse_item(copy.deepcopy(raw))
         self.item = item
         return self._rest(item)
@@ -265,6 +267,14 @@ class ItemRun:
             return self
         new_thy = theory.thy
         self.status = "accepted"
+        if item.ty in ('def', 'def.ind', 'def.pred', 'type.ind'):
+            # "the NEW constant": a definitional item must not give equations to a constant that exists
+            # already (whatever introduced it, in this or in an imported theory, at whatever type)
+            for e in exts:
+                if e.is_constant() and e.name in self.consts_before and e.name not in self.overloaded_before:
+                    self.hazards.append(("redeclared-constant", "the constant %s :: %s exists already (declared %s)" % (
+                        e.name, e.T, self.consts_before[e.name])))
+                    break
         if item.ty == 'type.ind' and item.name in getattr(self, "types_before", ()):
             # a second "definition" of an existing type: its induction / distinctness theorems join
             # (or replace) those of the first one, constants of the old type change their meaning
@@ -1217,6 +1227,92 @@ def adversarial_item(rng, g):
     return "adv:attributes", {"ty": rng.choice(["thm.ax", "thm"]), "name": g.fresh("ax"), "vars": {n: ty_str(T) for n, T in env}, "prop": prop, "attributes": attrs}
 
 
+LIB_CONSTS = [("true", "bool"), ("false", "bool"), ("conj", "bool => bool => bool"), ("neg", "bool => bool"), ("Suc", "nat => nat"),
+              ("nil", "'a list"), ("cons", "'a => 'a list => 'a list"), ("Pre", "nat => nat"), ("even", "nat => bool"),
+              ("append", "'a list => 'a list => 'a list"), ("length", "'a list => nat"), ("comp_fun", "('b => 'c) => ('a => 'b) => 'a => 'c")]
+
+
+def history_item(rng, g):
+    """(kind, raw, [earlier items]): a definitional item that re-uses the name of an item declared
+    earlier - in the same file or in an imported library theory - at exactly the SAME type (same
+    type-variable names).  The second one must not be accepted."""
+    g.bases = [BOOL, NAT]
+    name = g.fresh("h")
+    shape = rng.choice([("bool", [], BOOL), ("nat", [], NAT), ("nat => bool", [("x", NAT)], BOOL), ("'a => 'a => bool", [("x", TA), ("y", TA)], BOOL),
+                        ("nat => nat", [("n", NAT)], NAT)])
+    tstr, env, R = shape
+    lhs = " ".join([name] + [n for n, _ in env])
+
+    def a_def(i):
+        if not env:
+            rhs = ["true", "false"][i % 2] if R == BOOL else ["(0::nat)", "(1::nat)"][i % 2]
+        elif R == BOOL:
+            rhs = ["true", "false", "(%s = %s)" % (env[0][0], env[0][0]), "(~(%s = %s))" % (env[0][0], env[0][0])][(i + rng.randrange(2) * 2) % 4]
+        else:
+            rhs = ["%s" % env[0][0], "(Suc %s)" % env[0][0]][i % 2]
+        return {"ty": "def", "name": name, "type": tstr, "prop": "%s = %s" % (lhs, rhs)}
+
+    def a_fun(i):
+        if not env or env[0][1] != NAT:
+            return None
+        rest = " ".join(n for n, _ in env[1:])
+        v = ["true", "false"][i % 2] if R == BOOL else ["(0::nat)", "(1::nat)"][i % 2]
+        return {"ty": "def.ind", "name": name, "type": tstr, "rules": [{"prop": "%s 0 %s = %s" % (name, rest, v)}, {"prop": "%s (Suc k) %s = %s" % (name, rest, v)}]}
+
+    def a_pred(i):
+        if R != BOOL or not env:
+            return None
+        return {"ty": "def.pred", "name": name, "type": tstr, "rules": [{"name": "%s_intro%d" % (name, i), "prop": lhs}]}
+
+    def an_ax(i):
+        return {"ty": "def.ax", "name": name, "type": tstr}
+    if rng.random() < 0.25:    # a valid history: the later definition USES the earlier constant
+        n2 = g.fresh("h")
+        call = "(%s)" % lhs if env else name
+        second = {"ty": "def", "name": n2, "type": tstr,
+                  "prop": "%s = %s" % (" ".join([n2] + [n for n, _ in env]), "(~%s)" % call if R == BOOL else "(Suc %s)" % call)}
+        return "history:valid-sequence", second, [a_def(0)]
+    firsts = [("def", a_def), ("def.ax", an_ax), ("def.ind", a_fun), ("def.pred", a_pred)]
+    seconds = [("def", a_def), ("def", a_def), ("def.ind", a_fun), ("def.pred", a_pred)]
+    r = rng.random()
+    if r < 0.25:       # after an item of an imported theory
+        nm, T = rng.choice(LIB_CONSTS)
+        args, X = [], parse_ty_str(T)
+        vs = ["x", "y", "z"]
+        k = 0
+        while X[0] == "fun" and k < 3:
+            args.append((vs[k], X[1]))
+            X = X[2]
+            k += 1
+        hd = "(%s::%s)" % (nm, T)
+        rhs = g.leaf(X, []) if X in (BOOL, NAT) else (args[-1][0] if args and args[-1][1] == X else "(SOME k::%s. true)" % ty_str(X))
+        return "history:def-after-library:%s" % nm, {"ty": "def", "name": nm, "type": T, "prop": "%s = %s" % (" ".join([hd] + [a for a, _ in args]), rhs)}
+    for _ in range(20):
+        (k1, f1), (k2, f2) = rng.choice(firsts), rng.choice(seconds)
+        a, b = f1(0), f2(1)
+        if a is not None and b is not None:
+            return "history:%s-after-%s" % (k2, k1), b, [a]
+    return "history:def-after-def", a_def(1), [a_def(0)]
+
+
+def parse_ty_str(t):
+    """the few type strings of LIB_CONSTS as tuples"""
+    t = t.strip()
+    depth = 0
+    for i in range(len(t) - 1):
+        c = t[i]
+        depth += (c == "(") - (c == ")")
+        if depth == 0 and t[i:i + 2] == "=>":
+            return ("fun", parse_ty_str(t[:i]), parse_ty_str(t[i + 2:]))
+    if t.startswith("(") and t.endswith(")"):
+        return parse_ty_str(t[1:-1])
+    if t.endswith(" list"):
+        return ("list", parse_ty_str(t[:-5]))
+    if t.startswith("'"):
+        return ("tv", t[1:])
+    return (t,)
+
+
 def other_item(rng, g):
     """axiomatic constants, axioms, theorems with attributes, axiomatic types, headers"""
     g.bases = BASES
@@ -1713,6 +1809,49 @@ def prim_rec_ok(item, thy):
     return True, k
 
 
+def install_probe(item):
+    """after the FIRST definition of a constant was accepted: prove its equation from `<c>_def` through
+    the real checker and keep it as a (checked) theorem under another name.  Returns that name."""
+    from kernel import theory, extension
+    from kernel.proof import Proof
+    name = "c11_probe_" + item.cname
+    try:
+        prf = Proof()
+        prf.add_item(0, "theorem", args=item.cname + "_def")
+        th = theory.thy.check_proof(prf, no_gaps=True)
+        theory.thy.checked_extend([extension.Theorem(name, th, prf)])
+        return name
+    except Timeout:
+        raise
+    except Exception:  # noqa
+        return None
+
+
+def run_probe(probe, item):
+    """after a SECOND definition of the same constant was accepted: `theorem probe; theorem <c>_def;
+    symmetric; transitive` through the real checker.  Returns the proved `t1 = t2` (as text) if the
+    checker accepts it and the two sides differ, else None."""
+    from kernel import theory
+    from kernel.proof import Proof
+    try:
+        prf = Proof()
+        prf.add_item(0, "theorem", args=probe)
+        prf.add_item(1, "theorem", args=item.cname + "_def")
+        prf.add_item(2, "symmetric", prevs=[0])
+        prf.add_item(3, "transitive", prevs=[2, 1])
+        th = theory.thy.check_proof(prf, no_gaps=True)
+        if th.prop.is_equals() and th.prop.lhs != th.prop.rhs and not th.hyps:
+            try:
+                return str(th)
+            except Exception:  # noqa
+                return repr(th.prop)
+    except Timeout:
+        raise
+    except Exception:  # noqa
+        return None
+    return None
+
+
 def declared_constants(names):
     """(name, type-sexp, theory, item-ty) of every constant the loaded items declare, except the
     generic declarations of overloaded constants"""
@@ -1748,6 +1887,8 @@ def run_generated(ctx, ncases):
         r = rng.random()
         if r < 0.44:
             cases.append(g.item())
+        elif r < 0.455:
+            cases.append(history_item(rng, g))
         elif r < 0.47:
             cases.append(compound_arg_item(rng, g))
         elif r < 0.50:
@@ -1771,6 +1912,7 @@ def run_generated(ctx, ncases):
         else:
             cases.append(adversarial_item(rng, g))
     model_lines, model_owner = [], []
+    accepted_lines, accepted_owner = [], []
     oracle_lines, oracle_owner = [], []
     results = []
     for ci, case in enumerate(cases):
@@ -1778,16 +1920,40 @@ def run_generated(ctx, ncases):
         before = case[2] if len(case) > 2 else []
         theory.thy = copy.copy(base)
         decl_here = decl
+        seq, seq_ok, probe = [], True, None       # the history as the model sees it; the first definition of raw's name
         for b in before:            # items of the same file that come first
+            pb = parse_def_prop(b) if b['ty'] == 'def' else None
             with time_limit(60):
                 rb = ItemRun(b, widths=[]).run()
+            if b['ty'] == 'def' and pb is not None:
+                seq.append((b['name'], pb))
+            else:
+                seq = None if seq is None or b['ty'] != 'def' else seq
+            seq_ok = seq_ok and rb.status == "accepted"
             if rb.status == "accepted":
                 decl_here = decl_here + [(e.name, kwire.ty_to(e.T), "(generated)", b['ty']) for e in rb.exts
                                          if e.is_constant() and not any(x.is_overload() for x in rb.exts)]
+                if b['ty'] == 'def' and raw['ty'] == 'def' and b['name'] == raw['name'] and probe is None:
+                    probe = install_probe(rb.item)
         pre_thy = copy.copy(theory.thy)
         with time_limit(60):
             r = ItemRun(raw).run()
         results.append(r)
+        if probe is not None and r.status == "accepted":
+            contradiction = run_probe(probe, r.item)
+            if contradiction is not None:
+                ctx.violation("inconsistent-history:%s" % kind.replace("corpus:", ""),
+                              "two definitions of %s were both installed and the checker proves %s from them (theorem, theorem, symmetric, transitive)" % (
+                                  raw['name'], contradiction),
+                              {"stream": "generated", "base": GEN_BASE, "raw": raw, "before": before, "defect": "inconsistent-history", "kind": kind})
+        if before and raw['ty'] == 'def' and seq is not None and len(seq) == len(before):
+            theory.thy = copy.copy(pre_thy)
+            pr = parse_def_prop(raw)
+            if pr is not None and not any(n in base.get_data("term_sig") for n, _ in seq + [(raw['name'], pr)]):
+                items_s = [[sexp.enc(n), kwire.ty_to(T), kwire.term_to(pp)] for n, (T, pp) in seq + [(raw['name'], pr)]]
+                accepted_lines.append(sexp.dumps(["accepted", items_s]))
+                accepted_owner.append((kind, raw, before, seq_ok and r.status == "accepted"))
+            theory.thy = pre_thy if r.status != "accepted" else theory.thy
         if r.status == "accepted" and raw['ty'] == "def.ind":
             try:
                 okp, why = prim_rec_ok(r.item, theory.thy)
@@ -1870,6 +2036,20 @@ def run_generated(ctx, ncases):
                 if ndis <= 3:
                     ctx.broken("correspondence:c11:def", "Definition.parse %s (%s) but defOK=%s (%s) on %s" % (
                         "accepts" if pok else "rejects", r.err, mok, reason, json.dumps(raw, ensure_ascii=False)[:400]))
+    # ---- the history as a whole: the real loader accepts every item  <->  `accepted` of the model
+    # (Props2.lean: `defs_list_gives_DefsHold` needs each constant to be new)
+    out = ctx.lean_driver(EXE, accepted_lines, timeout=600) if accepted_lines else []
+    if out is None:
+        ctx.broken("correspondence:c11:driver", "model driver unavailable")
+    else:
+        for (kind, raw, before, real), line in zip(accepted_owner, out):
+            ctx.count("accepted-sequence:%s" % line.strip())
+            if line.strip() not in ("T", "F"):
+                ctx.broken("correspondence:c11:accepted", "driver answered %s" % line[:80])
+            elif (line.strip() == "T") != real:
+                ctx.coverage["disagreements_checked"] += 1
+                ctx.broken("correspondence:c11:accepted", "the loader %s the history but the model's `accepted` says %s: %s then %s" % (
+                    "accepts" if real else "does not accept", line.strip(), json.dumps(before, ensure_ascii=False)[:300], json.dumps(raw, ensure_ascii=False)[:200]))
     # ---- property oracle on the accepted definitions
     out = ctx.lean_driver(EXE, oracle_lines, timeout=3000) if oracle_lines else []
     if out is None:
@@ -1940,6 +2120,24 @@ def corpus_items(ctx):
         ("corpus:long:inductive", {"ty": "def.pred", "name": "longpr", "type": "nat => nat => bool", "rules": [
             {"name": "longpr_base", "prop": "longpr 0 0"},
             {"name": "longpr_step", "prop": "longpr m n --> longpr n m --> m = n + n --> n = m + 1 --> longpr (m + n) (n + m) --> longpr (Suc m) (Suc (Suc n)) --> longpr (Suc (m + n + n)) (n + m + m)"}]}),
+        ("corpus:history:def-after-def", {"ty": "def", "name": "cc", "type": "bool", "prop": "cc = false"},
+         [{"ty": "def", "name": "cc", "type": "bool", "prop": "cc = true"}]),
+        ("corpus:history:def-after-def", {"ty": "def", "name": "ccn", "type": "nat => nat", "prop": "ccn n = Suc n"},
+         [{"ty": "def", "name": "ccn", "type": "nat => nat", "prop": "ccn n = n"}]),
+        ("corpus:history:def-after-def.ax", {"ty": "def", "name": "cax", "type": "'a => 'a => bool", "prop": "cax x y = false"},
+         [{"ty": "def.ax", "name": "cax", "type": "'a => 'a => bool"}]),
+        ("corpus:history:def.ind-after-def", {"ty": "def.ind", "name": "cfn", "type": "nat => bool", "rules": [{"prop": "cfn 0 = false"}, {"prop": "cfn (Suc n) = false"}]},
+         [{"ty": "def", "name": "cfn", "type": "nat => bool", "prop": "cfn n = true"}]),
+        ("corpus:history:def.pred-after-def", {"ty": "def.pred", "name": "cpr", "type": "nat => bool", "rules": [{"name": "cpr_i", "prop": "cpr 0"}]},
+         [{"ty": "def", "name": "cpr", "type": "nat => bool", "prop": "cpr n = false"}]),
+        ("corpus:history:datatype-after-def", {"ty": "type.ind", "name": "cdt", "args": [], "constrs": [{"name": "ckk", "args": [], "type": "cdt"}]},
+         [{"ty": "type.ax", "name": "cdt", "args": []}, {"ty": "def.ax", "name": "ckk", "type": "cdt"}]),
+        ("corpus:history:def-after-library", {"ty": "def", "name": "true", "type": "bool", "prop": "(true::bool) = false"}),
+        ("corpus:history:def-after-library", {"ty": "def", "name": "Suc", "type": "nat => nat", "prop": "(Suc::nat => nat) n = n"}),
+        ("corpus:history:def-after-library", {"ty": "def", "name": "nil", "type": "'a list", "prop": "(nil::'a list) = (SOME k::'a list. true)"}),
+        ("corpus:overload:tvar-of-generic-type", {"ty": "def", "name": "zero", "type": "bool", "prop": "(zero::bool) = (!x::'a. !y::'a. x = y)"}),
+        ("corpus:overload:tvar-of-generic-type", {"ty": "def", "name": "power", "type": "bool => bool => bool",
+                                                  "prop": "(power::bool => bool => bool) x y = (x & (!k::'b. !m::'b. k = m))"}),
         ("corpus:compound-arg", {"ty": "def", "name": "ccomp1", "type": "bool => bool", "prop": "ccomp1 (x = x) = x"}),
         ("corpus:compound-arg", {"ty": "def", "name": "ccomp2", "type": "bool => bool => bool", "prop": "ccomp2 (x & y) true = x"}),
         ("corpus:compound-arg", {"ty": "def", "name": "ccomp3", "type": "bool => bool", "prop": "ccomp3 (~x) = x"}),
@@ -2078,7 +2276,8 @@ def run(ctx):
         "that are not the predicate, non-positive constructor arguments; re-declared types, constants, theorem names (also as two-item sequences); "
         "looping / unknown / repeated attributes; rejected items through both round trips. Added: definitions with compound arguments whose "
         "variables are as many as the arguments (c (x = x) = x); a chain of 3-4 user theories in a scratch directory re-loaded after an edit of "
-        "the first one (4 / 20 rounds).")
+        "the first one (4 / 20 rounds). Added: HISTORIES - a definitional item (def, def.ind, def.pred, type.ind) after an item of the same file "
+        "or of an imported library theory that introduced the same constant at exactly the same type; valid two-item histories.")
     ok = ctx.lean_props(["Holpy.C11.Props", "Holpy.C11.Props2"], exes=[EXE])
     if ctx.tier == "thorough" and ok:
         ctx.lean_check_modules(["Holpy.C11.Props", "Holpy.C11.Props2"])
@@ -2151,9 +2350,16 @@ def replay(ctx, rp):
         return res.status != "accepted" or bool(res.defects)
     basic.load_theory(r.get("base", GEN_BASE))
     raw = r["raw"]
+    probe = None
     for b in r.get("before", []):
-        ItemRun(b, widths=[]).run()
+        rb = ItemRun(b, widths=[]).run()
+        if rb.status == "accepted" and b['ty'] == 'def' and b['name'] == raw['name'] and probe is None:
+            probe = install_probe(rb.item)
     res = ItemRun(raw).run()
+    if r.get("defect") == "inconsistent-history":
+        c = run_probe(probe, res.item) if probe is not None and res.status == "accepted" else None
+        print(c)
+        return c is not None
     if res.status == "accepted" and r.get("defect") in [c for c, _ in definitional_hazards(res.item) + res.hazards]:
         print(definitional_hazards(res.item) + res.hazards)
         return True
@@ -2205,7 +2411,11 @@ MANIFEST = {
             "constructor of one datatype, distinct-variable patterns, recursive calls on constructor arguments only) is evaluated on every def.ind item "
             "of the library (thorough: 23 of 25 satisfy it; list:nth and verit:let match on two arguments) and of the generated stream, and must fail "
             "for every item with a def.ind hazard; re-loading a chain of user theories after an edit of an indirectly imported one must give theorems "
-            "well-typed over the signature and the same theory as a fresh load.",
+            "well-typed over the signature and the same theory as a fresh load; HISTORIES: an accepted def / def.ind / def.pred / type.ind item "
+            "whose constant already exists (same file or imported theory, same type) is a violation (the constant must be new); for histories of "
+            "def items the real loader accepting every item is compared with the model's `accepted` (the freshness condition of "
+            "defs_list_gives_DefsHold), and when two definitions of one constant were both installed the real checker is asked for `theorem; theorem; "
+            "symmetric; transitive` - a proved t1 = t2 (e.g. |- true <--> false) is reported with the history as replay.",
     "note": "Trusted: Lean kernel, axioms propext/Classical.choice/Quot.sound; the parser/printer (C07/C08) whose output is the object of the side "
             "conditions; the hand model's fidelity is as good as the generated items exercise it. A rejected library item is not a violation (the "
             "property does not say library items are accepted): it is counted and reported as a stream that no longer checks. For overloaded constants "
